@@ -380,6 +380,8 @@ def _coll_oracle(interp, env, f, args, t, bb, path):
     if dk in ("core::cmp::Ord::cmp", "core::cmp::PartialOrd::partial_cmp") and len(args) == 2:
         ra, rb = rank(interp, env, args[0]), rank(interp, env, args[1])
         if ra is not None and rb is not None:
+            if ra != ra or rb != rb:          # NaN is unordered: partial_cmp is None, a total order does not exist
+                return NONE if nm == "partial_cmp" else TOP
             o = Agg("adt", "core::cmp::Ordering", "Less" if ra < rb else "Greater" if ra > rb else "Equal", [])
             return o if nm == "cmp" else some(o)
         return TOP
@@ -701,6 +703,14 @@ def _coll_oracle(interp, env, f, args, t, bb, path):
             return It(v0.fields)
         if nm == "len":
             return len(v0.fields)
+        if nm == "map" and len(args) == 2 and v0.kind == "array" and sty.startswith("["):
+            out_ = []
+            for x in v0.fields:                     # `[T; N]::map(f)`: f applied to every element in order
+                r_ = _call1(interp, args[1], [x])
+                if r_ is None:
+                    return TOP
+                out_.append(r_)
+            return Agg("array", None, None, out_)
         if nm in ("split_first", "split_last", "split_first_mut", "split_last_mut") and len(args) == 1:
             if not v0.fields:
                 return NONE
